@@ -1,10 +1,10 @@
 (** Extraction of the executable C13 model (heap + operations) and of the reference DOM (Spec13) used as oracle.
     Only ExtrOcamlBasic is used: N/positive/nat stay the extracted inductive types.
     The path is relative to the directory coqc runs in (coq/). *)
-From Coq Require Import Extraction ExtrOcamlBasic.
+From Coq Require Import Extraction ExtrOcamlBasic NArith.
 From XV Require Import C13.Ops13 C13.Spec13 C13.Model13 C13.Abs13.
 Extraction Language OCaml.
 Extraction "../ocaml/C13/gen_c13.ml"
   init_heap step_cfg step run_cfg cfg_fixed cfg_found nd parent first_child last_child next_sib prev_sib pub_odoc kids
-  exc_code tcode
+  exc_code tcode kid_ok valid_name N.add N.mul
   sinit sstep srun abs.
